@@ -963,7 +963,7 @@ func Families(thorough bool) []Family {
 	}
 	return []Family{
 		famEscapes(), famCons(false), famFor(false), famAccess(2), famOps("ops", opsLeaves(false), 4),
-		famTmplFlush(false), famCalls(false), famTyped("typed-deep", true, 6, 6), famMixed(false),
-		famTmplFlat(false), famTmplBlocks(false), famTyped("typed", false, 1, 5),
+		famTmplFlush(false), famCalls(false), famTyped("typed-deep", true, 6, 6), famTyped("typed", false, 1, 5),
+		famMixed(false), famTmplFlat(false), famTmplBlocks(false),
 	}
 }
